@@ -84,7 +84,31 @@ jose_openssl_jwk_from_EVP_PKEY(jose_cfg_t *cfg, EVP_PKEY *key)
 
     case EVP_PKEY_EC:
         return jose_openssl_jwk_from_EC_KEY(cfg, EVP_PKEY_get0_EC_KEY(key));
-    default: return NULL;
+    default:
+#if OPENSSL_VERSION_NUMBER >= 0x30000000L
+        /* A MAC key held by a provider has no legacy type and no legacy
+         * representation: EVP_PKEY_get0_hmac() cannot reach it. */
+        if (EVP_PKEY_is_a(key, "HMAC")) {
+            json_t *jwk = NULL;
+            uint8_t *raw = NULL;
+
+            if (EVP_PKEY_get_raw_private_key(key, NULL, &len) <= 0)
+                return NULL;
+
+            raw = malloc(len > 0 ? len : 1);
+            if (!raw)
+                return NULL;
+
+            if (EVP_PKEY_get_raw_private_key(key, raw, &len) > 0)
+                jwk = json_pack("{s:s,s:o}", "kty", "oct", "k",
+                                jose_b64_enc(raw, len));
+
+            OPENSSL_cleanse(raw, len);
+            free(raw);
+            return jwk;
+        }
+#endif
+        return NULL;
     }
 }
 
